@@ -110,6 +110,16 @@ def gen_case(rng: Rng, i: int, tier: str):
               "omit_nums": r.chance(0.5), "dummy": r.pick([0, 0, 2, 3, 5, 18]), "dummy_tail": r.pick([0, 0, 4]), "emptyfile_vector_always": r.chance(0.2),
               "names_first": r.chance(0.8), "header": header, "password": password, "iv_seed": r.randrange(256), "no_substreams": r.chance(0.2),
               "header_crc": r.chance(0.8)}
+    rp = rng.sub("partialcrc")
+    if len(folders) >= 2 and rp.chance(0.12):
+        # folder CRCs for some folders only: a partially defined vector in UnpackInfo
+        layout["crc"] = "folder_partial"
+        marks = [rp.chance(0.5) for _ in folders]
+        if all(marks) or not any(marks):
+            marks[0] = not marks[0]
+        for f, mk in zip(folders, marks):
+            if mk:
+                f["nocrc"] = True
     re_ = rng.sub("emptyfolders")
     if re_.chance(0.15):
         # folders that hold no stream at all (NumUnpackStream == 0; py7zr writes one per session that adds only
@@ -117,6 +127,8 @@ def gen_case(rng: Rng, i: int, tier: str):
         pos = re_.randint(0, len(folders))
         for _ in range(re_.randint(1, 3)):
             folders.insert(pos, {"members": [], "chain": [dict(f) for f in re_.pick([[{"id": "COPY"}], [{"id": "LZMA2"}], [{"id": "LZMA"}]])]})
+            if re_.chance(0.3):
+                folders[pos]["orphan"] = re_.randint(1, 40)  # ... or data that belongs to no member
             if re_.chance(0.4):
                 pos = re_.randint(0, len(folders))
     return {"members": members, "layout": layout, "open": r.pick(["stream", "path", "anon"]),
@@ -310,6 +322,30 @@ def _compare(z, logical, viol, case):
         diff = sorted(k for k in want if k in got and got[k] != want[k])
         viol("content_differs", "extractall(factory)", "missing %r unexpected %r different %r" % (missing[:3], extra_[:3], diff[:3]),
              kind="missing" if missing else ("extra" if extra_ else "bytes"))
+        return
+    # the same archive onto the real scratch filesystem (names that a directory tree can hold, no links): kinds and bytes
+    names = [m["name"] for m in logical]
+    if any(m["kind"] == "symlink" for m in logical) or not all(rsess._fs_safe_name(n) and not n.startswith("/") and "\\" not in n for n in names):
+        return
+    if any(a != b and (b.startswith(a + "/")) and logical[names.index(a)]["kind"] != "dir" for a in names for b in names):
+        return
+    out = os.path.join(driver.worker_scratch(), "c06-tree")
+    shutil.rmtree(out, ignore_errors=True)
+    try:
+        z.reset()
+        z.extractall(path=out)
+        got_tree = rsess.snapshot_tree(out)
+    except Exception as e:
+        viol("valid_archive_extract_failed", "extractall(path)", "extraction of a valid archive to a directory raised %r" % e, error=type(e).__name__)
+        return
+    finally:
+        tree.make_removable(out) if os.path.isdir(out) else None
+        shutil.rmtree(out, ignore_errors=True)
+    want_tree = rsess.expected_tree([rw.Mem(m["name"], m["data"] if m["data"] is not None else (None if m["kind"] == "dir" else b""), "dir" if m["kind"] == "dir" else "file", None, None)
+                                     for m in logical])
+    if got_tree != want_tree:
+        diff = sorted(k for k in set(got_tree) | set(want_tree) if got_tree.get(k) != want_tree.get(k))
+        viol("content_differs", "extractall(path)", "extracted tree differs at %r" % diff[:4])
 
 
 def shrink_candidates(case):
